@@ -34,6 +34,9 @@ CLAIMED["C09"] = dict(tech="stateful property-based testing (rapid): histories o
 CLAIMED["C08"] = dict(tech="property-based testing (rapid) against the harness tree model: every rendering of the path to a generated target, plus absent / unknown targets",
       text="Generated-input search: schema + data with lists in lists, compound keys, key types string/int/bool/enum and key strings full of URL metacharacters and non-ASCII; target = container, list, entry or leaf present in the tree, or an absent key, absent container or unknown name; start = root, an ancestor or a container elsewhere (../ steps); rendering options: module-qualified segments, trailing slash, encode-everything vs encode-what-is-required, read-filter query attached. The selection must be on the same schema node with the same keys and content, its rendered path must find it again, absent data gives (nil, nil), an unknown name a not-found error, and the store's backing data is unchanged.",
       note="../ starts are containers reached through containers (the parent selection of a list entry is the list). The rendered path is only re-found for keys that need no escaping (Path.String does not escape).", ref="7 C08")
+CLAIMED["C07"] = dict(tech="property-based testing (rapid): differential between the constrained and the unconstrained read through the same writer, against per-parameter projection predicates of the harness",
+      text="Generated-input search: schema with config/non-config nodes, defaults, nested lists and choices + data with leaves planted at their defaults; target root / container / list entry; 1-3 of content, depth, fields / fc.xfields (multi-segment, alternative and grouped paths), with-defaults, through Find(path?query) and Constrain(query). The set of (path, value) of non-key leaves must equal the intersection of the parameters' projections of the unconstrained read, the store is unchanged, invalid values are errors. A second check windows lists with fc.range (empty, open, out-of-range, nested lists) and bounds fc.max-node-count.",
+      note="Tolerances of DESIGN.md 4.2: empty shells and key leaves in emptied regions are not asserted; fc.range end bound accepted as inclusive or exclusive; fc.max-node-count only in clear-cut cases. One open known finding (fc.max-node-count not enforced).", ref="7 C07")
 NOT_YET = {}
 props = [json.loads(l) for l in open(os.path.join(ROOT, "properties.jsonl"))]
 checks, na = [], []
